@@ -219,18 +219,21 @@ def check_transparency(res, lib):
     hi = [c for c in classes if min(c) >= 0x80]
     letters = [c for c in classes if min(c) > 0x22 and max(c) < 0x5C and 0x2D not in c] or \
               [c for c in classes if 0x61 in c]
-    if len(hi) != 1 or not letters:
+    if not hi or not letters:
         raise KeyError("tokenizer alphabet: classes for bytes >= 0x80 / letters not found (%s)" % [fsm.cls_name(c) for c in classes])
-    hic, let = hi[0], letters[0]
+    let = letters[0]
     states = {s for (s, c) in rule.trans}
-    for s in states:
-        a = {(s2, C07.simplify(o)) for s2, o in rule.trans.get((s, hic), ())}
-        b = {(s2, C07.simplify(o)) for s2, o in rule.trans.get((s, let), ())}
-        good = a == b and bool(a)
-        res.oblige("C|tokenizer|%s" % (s,), good, violation=None if good else dict(
-            rule='C17.transparent', key="C17|transparent|tokenizer",
-            msg="%s: in state %s a byte >= 0x80 is treated differently (%s) from an ordinary letter (%s)" % (fn.npath, s, sorted(a, key=str), sorted(b, key=str))))
-    res.samples.append("tokenizer: class [%s] behaves like [%s] in %d states" % (fsm.cls_name(hic), fsm.cls_name(let), len(states)))
+    # the tokenizer may not single out any byte >= 0x80 (a constant of the code that splits that range is judged like the rest)
+    for hic in hi:
+        for s in states:
+            a = {(s2, C07.simplify(o)) for s2, o in rule.trans.get((s, hic), ())}
+            b = {(s2, C07.simplify(o)) for s2, o in rule.trans.get((s, let), ())}
+            good = a == b and bool(a)
+            res.oblige("C|tokenizer|%s|%s" % (fsm.cls_name(hic), s), good, violation=None if good else dict(
+                rule='C17.transparent', key="C17|transparent|tokenizer|%s" % fsm.cls_name(hic),
+                msg="%s: in state %s a byte in [%s] (part of a multi-byte character) is treated differently (%s) from an ordinary "
+                    "letter (%s)" % (fn.npath, s, fsm.cls_name(hic), sorted(a, key=str), sorted(b, key=str))))
+    res.samples.append("tokenizer: classes %s behave like [%s] in %d states" % ([fsm.cls_name(h) for h in hi], fsm.cls_name(let), len(states)))
 
 
 class StepRule:
@@ -244,7 +247,8 @@ class StepRule:
         self.by_value = set()
 
     def inline_ok(self, I, ci, body):
-        return False
+        from .common import pure_helper
+        return pure_helper(body, self.fn.npath.rsplit('::', 1)[0])
 
     def state(self, w, depth):
         out = []
